@@ -127,7 +127,7 @@ def decode_docstring(text):
     start = text.find(':\n    """')
     if start < 0:
         return None
-    i = start + 8
+    i = start + 9
     n = len(text)
     out = []
     while True:
@@ -234,7 +234,7 @@ def python_default_ok(d, shape):
     return (not isinstance(got, NotPassed)) and jeq(got, d) and T == el
 
 
-DOC_SAFE = "all(c not in (chr(34), chr(92), chr(13), chr(0)) and not (0xD800 <= ord(c) <= 0xDFFF) for c in s)"
+DOC_SAFE = "chr(92) not in s and chr(13) not in s and chr(0) not in s and not s.endswith(chr(34)) and chr(34) * 3 not in s and all(not (0xD800 <= ord(c) <= 0xDFFF) for c in s)"
 
 
 def harnesses(ctx) -> List[H]:
@@ -260,6 +260,8 @@ return default_ok({S}, d, {loc}, {jloc}, {nd})
         nm = "parsed" if via else "dsl"
         hs.append(mk(f"c07_docstring_{nm}", "s: str", ["1 <= len(s) <= 3"] + excl, f"return docstring_ok(s, {via})", timeout=120, group="description",
                      tier="quick" if via else "thorough", covers="docstring literal of ObjectMeta.python() decodes to the description"))
+    hs.append(mk("c07_docstring_small_alphabet", "s: str", ["1 <= len(s) <= 4", "all(c in (chr(34), chr(39), chr(10), 'a') for c in s)"] + excl,
+                 "return docstring_ok(s, True)", timeout=200, tier="thorough", group="description", covers="descriptions up to 4 chars over the alphabet {double quote, single quote, newline, a}"))
     hs.append(mk("c07_docstring__reach", "s: str", ["1 <= len(s) <= 3"] + excl, "return not docstring_ok(s, True)", kind="witness", timeout=30, group="description"))
     hs.append(mk("c07_description_json", "s: str", ["len(s) <= 3"], "return desc_json_ok(s)", timeout=60, group="description"))
     return hs
